@@ -53,6 +53,12 @@ def sig_of(rej, scn):
         cls = rej.get("class") or ""
         if cls == "alt-carried-after-esc-c0":       # the oracle's diagnosis: nothing else differs in the run
             return "C03:events:" + cls
+        if kind == "typeahead":
+            # reports sent during start-up come first in the stream: a divergence among their events is about them
+            n = sum(len(a.get("Reports") or []) for a in scn["desc"].get("Ahead") or [])
+            if (rej.get("at") or 0) <= n:
+                return "C03:events:typeahead:input-during-start-up"
+            return "C03:events:typeahead:after-start-up:" + wg
         if kind in NEW_KINDS:
             return "C03:events:%s:%s:%s" % (kind, cls or "-", wg)
         return "C03:events:" + wg
@@ -71,6 +77,12 @@ def main(c):
         "CSI 1;c R is both F3 with modifiers and a cursor position report on row 1: either reading is accepted (optional event); CSI r;c R with r != 1 is never a key",
         "events of the library's unexported internal types (capability/reply notifications) are not application-visible user input and are filtered",
         "a query call's answer must be a value the terminal reported for that kind (its reply or one volunteered earlier)",
+        "input during start-up (family typeahead): keys, mouse reports, focus changes and complete pastes sent before / between the terminal's replies "
+        "to the start-up queries, none after the primary device attributes reply and no F3 chord or lone ESC (ambiguous while a cursor position "
+        "request is outstanding); event queues of 1-4 events and the default one",
+        "absurd size reports (family size-report): every field is either small (rows <= 200, columns <= 1000) or >= 2^50; values in between "
+        "(65535, 2^31, ...) are NOT generated because a library that accepts them would allocate gigabytes; only survival "
+        "(no panic in the frame drawn afterwards, sentinel delivered) is judged, not the size the library settles on",
     ]
     if not c.replay:
         c.model_check(specs, "MC_Reports.tla", "MC_Reports.cfg", workers=4)
@@ -80,6 +92,16 @@ def main(c):
         if c.tier == "thorough":   # non-vacuity of NoPhantom: the shape that decodes every unrequested CSI r;c R as a key violates it
             ok, _ = c.model_check(specs, "InputLoop.tla", "MC_InputLoop_stale.cfg", workers=4, expect_violation=True)
             c.cov["stale_report_model_delivers_phantom_key_as_expected"] = not ok
+        # start-up: input arriving between the replies to the start-up queries. The shape that keeps it and lets
+        # later input wait behind it delivers every key once and in order for queues of 1-2 events; the as-found
+        # shape (thrown away) loses keys; keeping without the wait reorders (thorough)
+        c.model_check(specs, "Startup.tla", "MC_Startup.cfg", workers=4)
+        ok, _ = c.model_check(specs, "Startup.tla", "MC_Startup_drop.cfg", workers=2, expect_violation=True)
+        c.cov["startup_drop_model_loses_keys_as_expected"] = not ok
+        if c.tier == "thorough":
+            ok, _ = c.model_check(specs, "Startup.tla", "MC_Startup_feed.cfg", workers=2, expect_violation=True)
+            c.cov["startup_ungated_model_reorders_as_expected"] = not ok
+            c.model_check(specs, "Startup.tla", "MC_Startup_deadline.cfg", workers=4)
     td = c.drive(drv, "c03", replay=c.replay)
     rejects, _ = c.validate_traces(specs, "Reports_Trace.tla", "Reports_Trace.cfg", td)
     if not c.replay:
@@ -105,4 +127,7 @@ def main(c):
              "malformed replies and garbage | query calls with on-time/late/never replies preceded by unsolicited ones); "
              "| ESC + control byte, silence, keys | ESC + non-ASCII / ESC ESC / ESC X keys then keys | cursor position requests "
              "(late/never/in-time replies on row 1 and other rows, F3 chords while outstanding) inside a judged key stream; "
+             "| input (keys, mouse, focus, pastes) sent before / between the replies to the start-up queries x event queue of "
+             "1-4 events or the default, then later input | absurd size reports (in-band and as the reply to a size request), "
+             "a frame, keys; "
              "each ends with an in-band sentinel key; distinct = distinct descriptor")
